@@ -84,11 +84,12 @@ PEM_LABEL_STRUCT = {                       # RFC 7468 (10, 11, 13) and the OpenS
 
 
 def pw_bytes(passphrase):
-    """passphrases are octet strings; text is restricted to ASCII by the driver"""
+    """passphrases are octet strings; text maps to octets as ISO 8859-1, the mapping of the library's documented
+    text-to-bytes convention (Crypto.Util.py3compat.tobytes); the driver's text passphrases stay within U+0000..U+00FF"""
     if passphrase is None:
         return None
     if isinstance(passphrase, str):
-        return passphrase.encode("ascii")
+        return passphrase.encode("latin-1")
     return bytes(passphrase)
 
 
